@@ -170,3 +170,37 @@ Proof.
     destruct (unpack_be 8 (skipn (S off) buf)); reflexivity.
   - apply nth_error_None in E. rewrite skipn_all2 by exact E. reflexivity.
 Qed.
+
+Lemma py_slice_tail buf (a : nat) (sz : N) :
+  (a <= length buf)%nat -> Z.of_nat (length buf) = Z.of_nat a + Z.of_N sz ->
+  py_slice buf (Some (Z.of_nat a)) (Some (Z.of_nat a + Z.of_N sz)) = skipn a buf.
+Proof.
+  intros Ha Hl. unfold py_slice, clamp_idx, py_len.
+  replace (Z.of_nat a <? 0) with false by lia.
+  replace (Z.of_nat a + Z.of_N sz <? 0) with false by lia.
+  rewrite <- Hl.
+  replace (Z.max 0 (Z.min (Z.of_nat (length buf)) (Z.of_nat (length buf)))) with (Z.of_nat (length buf)) by lia.
+  replace (Z.max 0 (Z.min (Z.of_nat (length buf)) (Z.of_nat a))) with (Z.of_nat a) by lia.
+  rewrite !Nat2Z.id. rewrite firstn_all.
+  destruct (Z.of_nat (length buf) <=? Z.of_nat a) eqn:E; [|reflexivity].
+  assert (a = length buf) by lia. subst. rewrite skipn_all. reflexivity.
+Qed.
+
+(* parse_and_check_tl(wire, expected_type): same accept/reject, same error class, same value slice *)
+Theorem gen_pact_eq wire (t : N) :
+  wf_bytes wire -> Gen.parse_and_check_tl wire (Z.of_N t) = parse_and_check_tl wire t.
+Proof.
+  intros Hw. unfold Gen.parse_and_check_tl, parse_and_check_tl.
+  change 0 with (Z.of_nat 0). rewrite gen_parse_eq by exact Hw. cbn [skipn].
+  destruct (tl_dec wire) as [[typ tlen]|e] eqn:E1; [|reflexivity]. cbn [map_res bind zpair fst snd].
+  rewrite gen_parse_eq by exact Hw.
+  destruct (tl_dec (skipn tlen wire)) as [[size slen]|e] eqn:E2; [|reflexivity]. cbn [map_res bind zpair fst snd].
+  replace (Z.of_N typ =? Z.of_N t) with (typ =? t)%N by lia.
+  destruct (typ =? t)%N; cbn [negb]; [|reflexivity].
+  unfold py_len.
+  replace (Z.of_nat (length wire) =? Z.of_nat tlen + Z.of_nat slen + Z.of_N size)
+    with (N.of_nat (length wire) =? N.of_nat (tlen + slen) + size)%N by lia.
+  destruct (N.of_nat (length wire) =? N.of_nat (tlen + slen) + size)%N eqn:E3; cbn [negb]; [|reflexivity].
+  f_equal. replace (Z.of_nat tlen + Z.of_nat slen) with (Z.of_nat (tlen + slen)) by lia.
+  apply py_slice_tail; lia.
+Qed.
